@@ -131,13 +131,16 @@ FIXED_SESSIONS = [
     ["argv one", "  ", "argv one"],
     [" argv one", "argv one", " argv one", "argv one"],
     ["argv one", "argv one ", "argv two"],                          # trailing blank: KF-C18-trim
+    # the history file named anew in mid-session: the later lines go to the new file (rows are read from both, in this order)
+    ["argv one", "export HISTORY_FILE=$HOME/history2.sqlite", "argv two", "argv two", "argv three"],
+    ["export HISTORY_FILE=$HOME/history2.sqlite", "argv one", " argv hidden", "argv one"],
 ]
 
 
 def prompt_sessions(tier, rng, cicada):
     from . import c20
     r = rng.fork("c18-prompt")
-    n = 12 if tier == "quick" else 150
+    n = 14 if tier == "quick" else 150
     sessions = list(FIXED_SESSIONS)
     while len(sessions) < n:
         ls = []
@@ -154,6 +157,8 @@ def prompt_sessions(tier, rng, cicada):
             if r.chance(1, 10):
                 base = r.choice([" ", "   "])                       # a blank line: not a submission
             ls.append(base)
+        if r.chance(1, 5):
+            ls.insert(r.below(len(ls) + 1), "export HISTORY_FILE=$HOME/history2.sqlite")
         sessions.append(ls)
     cases = []
     for i, ls in enumerate(sessions):
